@@ -75,13 +75,13 @@ Print Assumptions c07_units.
    ([sg_safe]), and for every tree once the proposed repair (docs/C07-sample-group-repair.patch) is applied. *)
 Theorem c07_sample_group_partial : forall (pascal snake kebab : bytes -> bytes) (d : edef),
   units_ok pascal snake kebab d = true -> sg_safe d = true ->
-  root_sg pascal snake kebab true false d = spec_groups pascal snake kebab d.
+  root_sg pascal snake kebab true false true d = spec_groups pascal snake kebab d.
 Proof. exact (fun pascal snake kebab d H S => refine_groups pascal snake kebab false d H (or_intror S)). Qed.
 Print Assumptions c07_sample_group_partial.
 
 Theorem c07_sample_group_repaired : forall (pascal snake kebab : bytes -> bytes) (d : edef),
   units_ok pascal snake kebab d = true ->
-  root_sg pascal snake kebab true true d = spec_groups pascal snake kebab d.
+  root_sg pascal snake kebab true true true d = spec_groups pascal snake kebab d.
 Proof. exact (fun pascal snake kebab d H => refine_groups pascal snake kebab true d H (or_introl eq_refl)). Qed.
 Print Assumptions c07_sample_group_repaired.
 
@@ -89,7 +89,7 @@ Print Assumptions c07_sample_group_repaired.
    flattened Entry excepted: they are whatever that Entry says) *)
 Theorem c07_sample_group_names_written_partial : forall (pascal snake kebab : bytes -> bytes) (d : edef) (n g : bytes),
   units_ok pascal snake kebab d = true -> sg_safe d = true ->
-  In (n, g) (root_sg pascal snake kebab true false d) ->
+  In (n, g) (root_sg pascal snake kebab true false true d) ->
   (exists b v, In (IValue n b v) (root_write pascal snake kebab true d)) \/
   In (RGroup n g) (spec_rows pascal snake kebab d).
 Proof. exact (fun pascal snake kebab d n g H S => groups_use_written_names pascal snake kebab false d n g H (or_intror S)). Qed.
@@ -98,13 +98,24 @@ Print Assumptions c07_sample_group_names_written_partial.
 (* REFUTED for the code as it is (before and after the tag repair), for every Inflector: a flattened child with a
    flatten prefix writes "foo_op" and reports the sample group "op".  Known finding C07-sample-group-flatten-prefix;
    the witness is replayed on the implementation (corpus/C07/cases.sx). *)
-Theorem c07_sample_group_refuted : forall (pascal snake kebab : bytes -> bytes) (ftag : bool),
-  root_sg pascal snake kebab ftag false witness_group_prefix = [(bs "op", bs "Get")] /\
+Theorem c07_sample_group_refuted : forall (pascal snake kebab : bytes -> bytes) (ftag fwrap : bool),
+  root_sg pascal snake kebab ftag false fwrap witness_group_prefix = [(bs "op", bs "Get")] /\
   spec_groups pascal snake kebab witness_group_prefix = [(bs "foo_op", bs "Get")] /\
   observe (root_write pascal snake kebab ftag witness_group_prefix) = [SValue (bs "foo_op") (VString (bs "Get"))] /\
   units_ok pascal snake kebab witness_group_prefix = true /\ sg_safe witness_group_prefix = false.
 Proof. exact group_prefix_refuted. Qed.
 Print Assumptions c07_sample_group_refuted.
+
+(* a flattened child wrapped in WithDimensions / ForceFlag lost its sample group (as found); repaired by the
+   repository's second fix: commit (the wrappers forward sample_group) *)
+Theorem c07_wrapped_sample_group_refuted_as_found : forall (pascal snake kebab : bytes -> bytes) (ftag fsg : bool),
+  root_sg pascal snake kebab ftag fsg false witness_wrapped_group = [] /\
+  spec_groups pascal snake kebab witness_wrapped_group = [(bs "op", bs "Get")] /\
+  observe (root_write pascal snake kebab ftag witness_wrapped_group)
+    = [SValue (bs "op") (VString (bs "Get")); SValue (bs "n") (VMetric (OU 1) 0 [(bs "k", bs "v")] false)] /\
+  root_sg pascal snake kebab ftag fsg true witness_wrapped_group = [(bs "op", bs "Get")].
+Proof. exact wrapped_group_refuted_as_found. Qed.
+Print Assumptions c07_wrapped_sample_group_refuted_as_found.
 
 (* ---- the tag naming as found (flag false) violated c07_refine; repaired by the repository's fix: commit;
    witnesses kept in corpus/C07/cases.sx ---- *)
@@ -121,9 +132,9 @@ Print Assumptions c07_tag_name_exact_refuted_as_found.
 (* a container exact_prefix is inflected in the tag's name *)
 Theorem c07_tag_exact_prefix_refuted_as_found :
   observe (root_write to_pascal_case to_snake_case to_kebab_case false witness_tag_exact_prefix)
-    = [SValue (bs "api_operation") (VString (bs "read")); SValue (bs "API:bytes") (VMetric (OU 1) 0)] /\
+    = [SValue (bs "api_operation") (VString (bs "read")); SValue (bs "API:bytes") (VMetric (OU 1) 0 [] false)] /\
   spec_items to_pascal_case to_snake_case to_kebab_case witness_tag_exact_prefix
-    = [SValue (bs "API:operation") (VString (bs "read")); SValue (bs "API:bytes") (VMetric (OU 1) 0)].
+    = [SValue (bs "API:operation") (VString (bs "read")); SValue (bs "API:bytes") (VMetric (OU 1) 0 [] false)].
 Proof. exact tag_exact_prefix_refuted_as_found. Qed.
 Print Assumptions c07_tag_exact_prefix_refuted_as_found.
 
@@ -151,17 +162,17 @@ Definition readme_combined : edef :=
 
 Example c07_example_readme :
   root_write to_pascal_case to_snake_case to_kebab_case true readme_combined
-  = [IValue (bs "foo-bar") true (VMetric (OU 1) 0);
+  = [IValue (bs "foo-bar") true (VMetric (OU 1) 0 [] false);
      IValue (bs "custom_name") true (VString (bs "x"));
-     IValue (bs "his-ApiLatency") true (VMetric (OU 5) 4);
+     IValue (bs "his-ApiLatency") true (VMetric (OU 5) 4 [] false);
      IValue (bs "his-exact_name") true VNone;
      IValue (bs "his-ApiOperation") true (VString (bs "count_ducks"))]
-  /\ root_sg to_pascal_case to_snake_case to_kebab_case true true readme_combined = [(bs "his-ApiOperation", bs "count_ducks")]
-  /\ root_sg to_pascal_case to_snake_case to_kebab_case true false readme_combined = [(bs "ApiOperation", bs "count_ducks")]
+  /\ root_sg to_pascal_case to_snake_case to_kebab_case true true true readme_combined = [(bs "his-ApiOperation", bs "count_ducks")]
+  /\ root_sg to_pascal_case to_snake_case to_kebab_case true false true readme_combined = [(bs "ApiOperation", bs "count_ducks")]
   /\ units_ok to_pascal_case to_snake_case to_kebab_case readme_combined = true
   /\ spec_items to_pascal_case to_snake_case to_kebab_case readme_combined
-     = [SValue (bs "foo-bar") (VMetric (OU 1) 0); SValue (bs "custom_name") (VString (bs "x"));
-        SValue (bs "his-ApiLatency") (VMetric (OU 5) 4); SValue (bs "his-ApiOperation") (VString (bs "count_ducks"))].
+     = [SValue (bs "foo-bar") (VMetric (OU 1) 0 [] false); SValue (bs "custom_name") (VString (bs "x"));
+        SValue (bs "his-ApiLatency") (VMetric (OU 5) 4 [] false); SValue (bs "his-ApiOperation") (VString (bs "count_ducks"))].
 Proof. vm_compute. repeat split. Qed.
 
 (* a prefix chain crossing the 100-byte limit: the name is heap-built, and still the plain concatenation *)
@@ -171,7 +182,7 @@ Example c07_example_long_chain :
              (EStruct Preserve None (FCons (bs "b") (KFlatten (Some (PExact p)) Plain
                 (EStruct Preserve None (FCons (bs "RequestCount") (KField None None false (LNum (OU 1) 0)) FNil))) FNil))) FNil) in
   root_write to_pascal_case to_snake_case to_kebab_case true d
-  = [IValue (p ++ p ++ bs "request_count") false (VMetric (OU 1) 0)].
+  = [IValue (p ++ p ++ bs "request_count") false (VMetric (OU 1) 0 [] false)].
 Proof. vm_compute. reflexivity. Qed.
 
 Example c07_example_concat_limit :
